@@ -1,5 +1,6 @@
 """C11 — filters use the documented criteria, in order, one destination per read."""
 import z3
+import os
 from pyvc import api
 from pyvc.api import contract, Int, Bool, Real, Str, OptT, ObjT, TupT, SeqT
 from pyvc.values import *  # noqa
@@ -266,6 +267,63 @@ def steps_spec(cx):
 
     cx.spec["paired_filters_use_mode"] = paired_filters_use_mode
 
+    def alts(v):
+        """[(condition, None | object)] for a value that may be None, an object, or one of several objects."""
+        if v is None:
+            return [(z3.BoolVal(True), None)]
+        if isinstance(v, Opt):
+            return [(v.none, None)] + [(z3.And(z3.Not(v.none), c_), o_) for c_, o_ in alts(v.val) if o_ is not None]
+        if isinstance(v, ChoiceV):
+            return [(z3.And(c_, c2), o_) for c_, v_ in v.options for c2, o_ in alts(v_)]
+        if isinstance(v, ObjV):
+            return [(c_, (cn, v)) for c_, cn in possible_classes(v)]
+        return [(z3.BoolVal(True), ("?", v))]
+
+    def length_predicates_from_own_option(steps, pred_class, option, paired):
+        """Each predicate of the length filter is None exactly when its side has no bound and otherwise is of the
+        filter's own class with the bound parsed from the filter's own option (LEN, LEN:LEN2, LEN: or :LEN2;
+        a single LEN applies to both sides)."""
+        pred_class = _py(pred_class)
+        s_ = as_str(option.val if isinstance(option, Opt) else option)
+        two = PARSE_LEN_TWO(s_.arr, s_.n)
+        none0, val0 = PARSE_LEN_NONE[0](s_.arr, s_.n), PARSE_LEN[0](s_.arr, s_.n)
+        none1 = z3.If(two, PARSE_LEN_NONE[1](s_.arr, s_.n), none0)
+        val1 = z3.If(two, PARSE_LEN[1](s_.arr, s_.n), val0)
+        cs = []
+        for g, it in filters_of_any(steps, pred_class):
+            for ccond, cn in possible_classes(it):
+                sides = [("a0", none0, val0)] + ([("a1", none1, val1)] if cn == "PairedEndFilter" else [])
+                for key, none_, val_ in sides:
+                    if os.environ.get("VERIF_DEBUG"):
+                        print("DEBUG", pred_class, cn, key, repr(it.fields.get(key))[:300], [(str(a)[:100], (b[0], str(b[1].fields.get("a0"))[:100]) if b else None) for a, b in alts(it.fields.get(key))])
+                    for acond, o_ in alts(it.fields.get(key)):
+                        h_ = z3.And(g, ccond, acond)
+                        if o_ is None:
+                            cs.append(z3.Implies(h_, none_))
+                        else:
+                            cn_, ov = o_
+                            arg = ov.fields.get("a0") if isinstance(ov, ObjV) else None
+                            if isinstance(arg, Opt):
+                                arg_none, arg = arg.none, arg.val
+                                cs.append(z3.Implies(h_, z3.Not(arg_none)))
+                            ok = z3.BoolVal(False) if cn_ != pred_class or arg is None or not is_z3(arg) else \
+                                z3.And(z3.Not(none_), arg == val_)
+                            cs.append(z3.Implies(h_, ok))
+        return z3.And(*cs) if cs else z3.BoolVal(True)
+
+    def filters_of_any(steps, pred_class):
+        """filters one of whose predicates (either side, any alternative) is of the given class"""
+        out = []
+        for g, it in expand(steps):
+            it_ = it.val if isinstance(it, Opt) else it
+            if set(step_cls(it_)) <= {"SingleEndFilter", "PairedEndFilter"}:
+                p = _pred_of(it_)
+                if p is not None and p.cls == pred_class:
+                    out.append((g, it_))
+        return out
+
+    cx.spec["length_predicates_from_own_option"] = length_predicates_from_own_option
+
     def veq_str(a, b):
         from pyvc.engine import str_eq
         if a is None or b is None:
@@ -318,6 +376,9 @@ def builder_steps(c):
         every_other_pair_filter_uses_the_requested_mode=f"implies(paired, paired_filters_use_mode({S}, pair_filter_mode, 'TooShort', 'TooLong', 'TooManyN', "
                                                         f"'TooManyExpectedErrors', 'TooHighAverageErrorRate', 'CasavaFiltered', 'IsTrimmed'))",
         length_filters_present_iff_bounds_given=f"present_filter({S}, 'TooShort') == (not is_none(args.minimum_length)) and present_filter({S}, 'TooLong') == (not is_none(args.maximum_length))",
+        length_bounds_come_from_the_filters_own_option_one_sided_bound_looks_at_that_side_only=
+        f"implies(not is_none(args.minimum_length), length_predicates_from_own_option({S}, 'TooShort', args.minimum_length, paired)) and "
+        f"implies(not is_none(args.maximum_length), length_predicates_from_own_option({S}, 'TooLong', args.maximum_length, paired))",
         n_and_casava_filters_present_iff_requested=f"present_filter({S}, 'TooManyN') == (not is_none(args.max_n)) and present_filter({S}, 'CasavaFiltered') == args.discard_casava",
         expected_error_filters_need_qualities=f"present_filter({S}, 'TooManyExpectedErrors') == (not is_none(args.max_expected_errors) and input_file_format.qualities) and "
                                               f"present_filter({S}, 'TooHighAverageErrorRate') == (not is_none(args.max_average_error_rate) and input_file_format.qualities)",
